@@ -538,7 +538,7 @@ def run(ctx):
         ctx.note(case, nt, cl)
         ctx.handle(case, fails)
 
-    core.run_given(ctx, configuration(), body, ctx.n(440, 2000), label="c18-configurations")
+    core.run_given(ctx, configuration(), body, ctx.n(400, 2000), label="c18-configurations")
     if ctx.evaluations >= 300:
         low = [c for c in REQUIRED_CLASSES if ctx.classes.get(c, 0) < 0.01 * ctx.evaluations]
         if low:
